@@ -185,7 +185,9 @@ fn any_entry(prev_line: usize) -> Entry {
         name: if kani::any() { Some(kani::any()) } else { None },
     };
     // precondition that SourceWriter guarantees by construction: generated lines never go backwards
-    kani::assume(e.gl >= prev_line && e.gl < LIM);
+    // at most 3 generated lines are skipped per entry: under Kani `";".repeat(n)` is a stub, but a
+    // counterexample must also replay natively, where repeat(n) really allocates n bytes
+    kani::assume(e.gl >= prev_line && e.gl <= prev_line + 3);
     kani::assume(e.gc < LIM && e.ol < LIM && e.oc < LIM && e.file < LIM);
     if let Some(n) = e.name {
         kani::assume(n < LIM);
